@@ -126,6 +126,21 @@ def jobs(tier):
                    ("ATOP_REVERSE", "combine_atop_reverse_u"), ("XOR", "combine_xor_u"), ("ADD", "combine_add_u")):
         js.append(Job("zero_src.%s" % op, "C12/zero_src.c", defines={"VC_OPA": op, "VC_FN": fn}, kind="proof", unwind=2,
                       functions=["zero_src_has_no_effect", fn], domain="every (s,d) in 2^64, mask coverage 0", timeout=600, min_props=2))
+    # ---- (9) (lead) pixman_composite_trapezoids: which route, and what the mask route hands to create/rasterise/composite
+    js.append(Job("composite_trapezoids.routes", "C12/ctrap.c", defines={"VC_ALPHAMAP_OBLIGATION": 1}, unwind=4, kind="bounded",
+                  cbmc_flags=["--no-signed-overflow-check", "--no-undefined-shift-check"],
+                  bound="one valid trapezoid with vertical edges inside a 200x200 destination",
+                  functions=["pixman_composite_trapezoids", "get_trap_extents", "pixman_rasterize_trapezoid"],
+                  domain="every Porter-Duff operator, source flag word, mask format a1/a4/a8, destination format, clip / alpha map present or not, "
+                         "mask allocation failing or not, offsets", timeout=1800, min_props=5,
+                  assumptions=["composite_trapezoids.routes: pixman_rasterize_edges, pixman_image_create_bits, pixman_image_composite, "
+                               "pixman_image_unref, _pixman_image_validate are recording stubs",
+                               "composite_trapezoids.routes: signed-overflow and shift checks off (pixman_edge_init on arbitrary coordinates is covered, with its assumptions, by the edge.* jobs)"]))
+    # ---- (8) (lead) triangle orientation test: exact sign of the cross product (the decomposition itself did not finish)
+    for b in ((16,) if tier == "quick" else (16, 20, 24)):
+        js.append(Job("triangle.clockwise.b%d" % b, "C12/triangle.c", defines={"VC_CASE": 0, "VC_LIMBITS": b}, kind="bounded",
+                      bound="coordinates within +-2^%d (16.16 units); the query at +-2^30 does not finish" % b, functions=["clockwise"],
+                      domain="three points: clockwise() == sign of the exact 64-bit cross product", timeout=1800, min_props=1))
     return js
 
 
